@@ -541,15 +541,18 @@ func runC15(args []string) {
 			if s == stOfflineAll && len(prefix)+premined < 3 {
 				continue
 			}
-			// quick tier: at most one of the rarer notifications per sequence
-			if !run.Thorough() && rare[s] {
-				nr := 0
+			// at most one (thorough: two) of the rarer notifications per sequence
+			if rare[s] {
+				nr, lim := 0, 1
+				if run.Thorough() {
+					lim = 2
+				}
 				for _, p := range prefix {
 					if rare[p] {
 						nr++
 					}
 				}
-				if nr >= 1 {
+				if nr >= lim {
 					continue
 				}
 			}
